@@ -114,13 +114,16 @@ def bookkeeping_ops(ops):
     return ops
 
 def run(res):
-    res.cov["rule"] = ("seeded file / names / dircache / extension-boundary histories with several files and handles; before each mutating operation the image is decoded "
-                       "(ownership of every block), then each of the operation's block writes is classified; distinct by (flavour, operation, classification)")
+    res.cov["rule"] = ("seeded file / names / dircache / extension-boundary histories with several files and handles, on floppies (one bitmap page) and hardfiles (3-4 bitmap pages); "
+                       "before each mutating operation the image is decoded (ownership of every block), then each of the operation's block writes is classified; at every bitmap page "
+                       "write the harness checks that the on-disk bitmap-valid flag is cleared; distinct by (flavour, operation, classification)")
     res.assumptions += ["the decode before an operation reflects the on-disk state; blocks a writer holds only in memory count as free on disk",
                         "a chdir between instrumented operations is tracked from the operation list"]
     ok, why = vlib.proof_side(res, PID)
     exe = vlib.build_harness("asan")
-    mix = [("file", {"nops": 30}), ("extbound", {}), ("names", {"nops": 30}), ("dirc", {"nops": 25}), ("file", {"nops": 30, "nfiles": 3})]
+    # volumes with one bitmap page (floppies) and with several (hardfiles of 3 and 4 pages: 9536 and 12400 blocks)
+    mix = [("file", {"nops": 30}), ("extbound", {}), ("names", {"nops": 30}), ("file", {"nops": 25, "kind": 9536}), ("dirc", {"nops": 25}),
+           ("file", {"nops": 30, "nfiles": 3}), ("file", {"nops": 25, "kind": 12400, "nfiles": 2})]
     n = 15 if res.tier == "quick" else 400
     specs = []
     for i in range(n):
@@ -130,8 +133,11 @@ def run(res):
     from concurrent.futures import ThreadPoolExecutor
     def one(ops0):
         ops = instrument(ops0)
-        cb, paths, tie, san, crash, fault = hist.run_plain(exe, ops, lean=True, timeout=600)
+        cb, paths, tie, san, crash, fault, err = hist.run_plain(exe, ops, lean=True, timeout=600, want_err=True)
         bad = [] if (san or crash) else judge_with_cwd(ops, cb, paths, hist.dostype_of(ops0), hist.nblocks_of(ops0))
+        # second sentence of the property, observed on the real code by the harness at every single block write
+        bo = vlib.bmorder_report(err)
+        if bo: bad.insert(0, "bitmap update order: " + bo)
         return ops0, ops, bad, tie, san or crash or fault
     bad, ties = [], []
     nwrites = 0
